@@ -2,8 +2,8 @@
 Entries for properties that are claimed in registry.PROPS are ignored by mkmanifest."""
 PENDING = "not claimed yet in this build session: the unit planned for it in DESIGN.md section 4 has not been built/validated"
 NOT_APPLICABLE = {
-    "C01": PENDING, "C02": PENDING, "C03": PENDING, "C05": PENDING, "C08": PENDING, "C09": PENDING,
-    "C11": PENDING, "C12": PENDING, "C14": PENDING, "C15": PENDING, "C16": PENDING, "C18": PENDING, "C19": PENDING,
+    "C11": "the planned Kani decomposition (value->bucket for all doubles per power-of-two range; bucket->observation through the real 976-bucket drain per concrete index) has not been built and validated; "
+           "the monolithic harness did not finish in 8 min; not claimed until a unit exists that catches a seeded change",
     "C06": "the guarantee is the cross-thread order in which Arc/guard references are released (Drop + reference counts); Verus models neither, Kani has no threads and did not finish even 4 sequential symbolic drop steps",
     "C07": "quantifies over programs given to a proc macro; no installed deductive verifier takes token streams as symbolic input and the inflection lives in a dependency",
     "C10": "conservation is over histories of a hashbrown raw-entry map and macro-generated Merge/Key impls; flush completion and termination are properties of a closure inside thread::spawn; none is addressable by a function contract here",
